@@ -330,4 +330,18 @@ pub fn run(cfg: &Cfg, rep: &mut Report) {
     }
     crate::conc::set_mode(prev);
   }
+
+  // thread part: the producer on one thread, the operator's tasks on a FIFO
+  // worker thread (a single-threaded pool running on its own thread)
+  let n = cfg.n(8_000, 400_000);
+  let fams = [21usize, 22];
+  super::thr::systematic_families(cfg, rep, 0xC07A, &fams, &|_, _| {}, &|o, s| super::thr::moved_oracle(o, s));
+  super::thr::campaign(cfg, rep, "thr", n, 0xC07F, &mut |r: &mut Rng| {
+    let f = fams[r.below(2)];
+    super::thr::random_scen(r, f)
+  }, &|o, s| super::thr::moved_oracle(o, s));
+  super::thr::free_campaign(cfg, rep, cfg.n(1_500, 150_000), 0xC07E, &mut |r: &mut Rng| {
+    let f = fams[r.below(2)];
+    super::thr::random_scen(r, f)
+  }, &|o, s| super::thr::moved_oracle(o, s));
 }
